@@ -1,1 +1,239 @@
-(* stub: to be written *)
+(* C09 — the precision flag is honoured end to end.
+   Only statements here; proofs live in theories/Precision.v, over gen/GenPrecision.v (= the float policy, the
+   constant-binding decisions and the two jax_enable_x64 context managers of the CURRENT /repo code, translated on
+   every run) and theories/Onnx.v (= the abstract syntax real exports are converted to by tools/onnx2coq.py).
+   What cannot be closed by proof (plugins create helper constants and casts ad hoc) is checked per export by
+   evaluating [no_double] inside Coq and by the ORT-vs-JAX(x64) comparison of harness/c09.py. *)
+From Coq Require Import ZArith String List Bool.
+From J2O Require Import PyLib Dtype Onnx CastSem Precision.
+From J2OGen Require Import GenPrecision.
+Import ListNotations.
+Open Scope Z_scope.
+
+(* ---------------------------------------------------------------- (V) the validator run on every single-precision export *)
+(* sound AND complete: no_double accepts exactly the models without DOUBLE(11)/COMPLEX128(15) on any declared value
+   (inputs, initializers, outputs, value_info) of ANY graph of the table (main graph and all If/Loop/Scan bodies), on
+   any tensor attribute (Constant.value, ConstantOfShape.value, ...) and on any Cast.to / *.dtype attribute of any node
+   of any graph or function body *)
+Theorem C09_no_double_iff : forall m, no_double m = true <->
+  (forall g vi, In g (om_graphs m) -> In vi (graph_decls g) -> vi_dtype vi <> 11 /\ vi_dtype vi <> 15) /\
+  (forall n nm d dims s, In n (all_nodes m) -> In (nm, ATensor d dims s) (on_attrs n) -> d <> 11 /\ d <> 15) /\
+  (forall n nm z, In n (all_nodes m) -> In (nm, AInt z) (on_attrs n) -> nm = "to"%string \/ nm = "dtype"%string ->
+                  z <> 11 /\ z <> 15).
+Proof. exact no_double_iff. Qed.
+Print Assumptions C09_no_double_iff.
+
+Theorem C09_no_double_complete : forall m, no_double m = false ->
+  (exists g vi, In g (om_graphs m) /\ In vi (graph_decls g) /\ is_double (vi_dtype vi) = true) \/
+  (exists n nm a, In n (all_nodes m) /\ In (nm, a) (on_attrs n) /\ attr_ok is_double (on_op n) (nm, a) = false).
+Proof. exact no_double_complete. Qed.
+Print Assumptions C09_no_double_complete.
+
+(* all nodes = nodes of every graph of the table + nodes of every function body *)
+Theorem C09_all_nodes : forall m n, In n (all_nodes m) <->
+  (exists g, In g (om_graphs m) /\ In n (og_nodes g)) \/ (exists f, In f (om_functions m) /\ In n (of_nodes f)).
+Proof. exact in_all_nodes. Qed.
+Print Assumptions C09_all_nodes.
+
+(* nested bodies at any depth, also those hanging off function bodies, are covered *)
+Theorem C09_no_double_reaches_nested_bodies : forall m, no_double m = true -> forall g, reach m g ->
+  (forall vi, In vi (graph_decls g) -> vi_dtype vi <> 11 /\ vi_dtype vi <> 15) /\
+  (forall n nm d dims s, In n (og_nodes g) -> In (nm, ATensor d dims s) (on_attrs n) -> d <> 11 /\ d <> 15) /\
+  (forall n nm z, In n (og_nodes g) -> In (nm, AInt z) (on_attrs n) -> nm = "to"%string \/ nm = "dtype"%string ->
+                  z <> 11 /\ z <> 15).
+Proof. exact no_double_reach. Qed.
+Print Assumptions C09_no_double_reaches_nested_bodies.
+
+Theorem C09_table_closed_sound : forall m, table_closed m = true ->
+  forall n i, In n (all_nodes m) -> In i (node_subgraph_ids n) -> exists g, graph_by_id m i = Some g.
+Proof. exact table_closed_sound. Qed.
+Print Assumptions C09_table_closed_sound.
+
+Theorem C09_first_double_none : forall m, first_double m = None <-> no_double m = true.
+Proof. exact first_double_none. Qed.
+Print Assumptions C09_first_double_none.
+
+(* the analogue for single-precision items in a double-precision export (FLOAT / COMPLEX64, and Constant.value_float(s)) *)
+Theorem C09_no_single_iff : forall m, no_single m = true <->
+  (forall g vi, In g (om_graphs m) -> In vi (graph_decls g) -> vi_dtype vi <> 1 /\ vi_dtype vi <> 14) /\
+  (forall n nm d dims s, In n (all_nodes m) -> In (nm, ATensor d dims s) (on_attrs n) -> d <> 1 /\ d <> 14) /\
+  (forall n nm z, In n (all_nodes m) -> In (nm, AInt z) (on_attrs n) -> nm = "to"%string \/ nm = "dtype"%string ->
+                  z <> 1 /\ z <> 14) /\
+  (forall n nm, In n (all_nodes m) -> on_op n = "Constant"%string ->
+      ~ In (nm, AFloat) (on_attrs n) /\ ~ In (nm, AFloats) (on_attrs n)).
+Proof. exact no_single_iff. Qed.
+Print Assumptions C09_no_single_iff.
+
+Theorem C09_first_single_none : forall m, first_single m = None <-> no_single m = true.
+Proof. exact first_single_none. Qed.
+Print Assumptions C09_first_single_none.
+
+(* non-vacuity: a DOUBLE Cast hidden in a Loop body that hangs off a function body is found *)
+Theorem C09_validator_nonvacuous : no_double hidden_cast_model = false /\
+  first_double hidden_cast_model = Some "graph1:Cast(c).attr:to"%string /\ table_closed hidden_cast_model = true.
+Proof. exact hidden_cast_rejected. Qed.
+Print Assumptions C09_validator_nonvacuous.
+
+(* ---------------------------------------------------------------- (P) the float policy (numpy dtype x flag -> ONNX dtype) *)
+Theorem C09_policy_total : forall d flag, exists r, policy d flag = Some r.
+Proof. exact policy_total. Qed.
+Print Assumptions C09_policy_total.
+
+(* single precision: the policy maps every numpy dtype to the ONNX type of the same representation ... *)
+Theorem C09_policy_single_identity : forall d, policy d false = Some (ref_onnx d).
+Proof. exact policy_single_identity. Qed.
+Print Assumptions C09_policy_single_identity.
+(* ... so DOUBLE comes out exactly for a float64 numpy value: a float64 constant bound without a down-cast DOES yield
+   DOUBLE in single-precision mode (the per-export check has to establish that none reaches the graph) *)
+Theorem C09_policy_single : forall d, policy d false = Some DT_DOUBLE <-> d = NP_float64.
+Proof. exact policy_single. Qed.
+Print Assumptions C09_policy_single.
+Theorem C09_policy_single_complex : forall d, policy d false = Some DT_COMPLEX128 <-> d = NP_complex128.
+Proof. exact policy_single_complex. Qed.
+Print Assumptions C09_policy_single_complex.
+
+(* double precision: every floating dtype except float16 / bfloat16 (kept, as the code says) becomes DOUBLE *)
+Theorem C09_policy_double : forall d, np_class d = CFloat -> d <> NP_float16 -> d <> NP_bfloat16 ->
+  policy d true = Some DT_DOUBLE.
+Proof. exact policy_double. Qed.
+Print Assumptions C09_policy_double.
+Theorem C09_policy_double_iff : forall d, policy d true = Some DT_DOUBLE <-> d = NP_float32 \/ d = NP_float64.
+Proof. exact policy_double_iff. Qed.
+Print Assumptions C09_policy_double_iff.
+Theorem C09_policy_double_never_float : forall d, policy d true <> Some DT_FLOAT.
+Proof. exact policy_double_never_float. Qed.
+Print Assumptions C09_policy_double_never_float.
+(* the documented exceptions, and one undocumented: complex64 keeps single-precision components in double mode *)
+Theorem C09_policy_double_exceptions :
+  policy NP_float16 true = Some DT_FLOAT16 /\ policy NP_bfloat16 true = Some DT_BFLOAT16 /\
+  policy NP_complex64 true = Some DT_COMPLEX64.
+Proof. exact policy_double_exceptions. Qed.
+Print Assumptions C09_policy_double_exceptions.
+Theorem C09_policy_default : forall flag,
+  numpy_dtype_to_ir_with_float_policy None flag = Some (if flag then DT_DOUBLE else DT_FLOAT).
+Proof. exact policy_default. Qed.
+Print Assumptions C09_policy_default.
+
+Theorem C09_policy_class_preserved : forall d flag r, policy d flag = Some r -> dtype_class r = np_class d.
+Proof. exact policy_class_preserved. Qed.
+Print Assumptions C09_policy_class_preserved.
+Theorem C09_ints_keep_or_widen : forall d flag r sb,
+  policy d flag = Some r -> np_int_info d = Some sb -> int_info r = Some sb.
+Proof. exact ints_keep_or_widen. Qed.
+Print Assumptions C09_ints_keep_or_widen.
+Theorem C09_dtype_to_ir_is_policy : forall o flag, dtype_to_ir o flag = numpy_dtype_to_ir_with_float_policy o flag.
+Proof. exact dtype_to_ir_is_policy. Qed.
+Print Assumptions C09_dtype_to_ir_is_policy.
+
+(* the flag-less mapping _to_ir_dtype_from_np *)
+Theorem C09_to_ir_from_np_double_iff : forall d, to_ir_dtype_from_np d = Some DT_DOUBLE <-> d = NP_float64.
+Proof. exact to_ir_from_np_double_iff. Qed.
+Print Assumptions C09_to_ir_from_np_double_iff.
+Theorem C09_to_ir_from_np_class_refuted : exists d r, to_ir_dtype_from_np d = Some r /\ dtype_class r <> np_class d.
+Proof. exact to_ir_from_np_class_refuted. Qed.
+Print Assumptions C09_to_ir_from_np_class_refuted.
+Theorem C09_to_ir_from_np_class_partial : forall d r,
+  np_class d <> CComplex -> to_ir_dtype_from_np d = Some r -> dtype_class r = np_class d.
+Proof. exact to_ir_from_np_class_partial. Qed.
+Print Assumptions C09_to_ir_from_np_class_partial.
+
+(* promotion of payloads (the two copies of the helper agree) *)
+Theorem C09_promote_spec : forall d flag,
+  maybe_promote_float_array d flag = Some (if flag && np_is_floating d then NP_float64 else d) /\
+  ctx_promote_float_array flag d = maybe_promote_float_array d flag.
+Proof. intros. split; [apply promote_spec | symmetry; apply promote_copies_agree]. Qed.
+Print Assumptions C09_promote_spec.
+
+(* constants bound through IRContext.bind_const_for_var *)
+Theorem C09_bind_const_single : forall d, bind_const_declared false d = Some DT_DOUBLE <-> d = NP_float64.
+Proof. exact bind_const_single. Qed.
+Print Assumptions C09_bind_const_single.
+Theorem C09_bind_const_double : forall d, np_is_floating d = true -> bind_const_declared true d = Some DT_DOUBLE.
+Proof. exact bind_const_double. Qed.
+Print Assumptions C09_bind_const_double.
+Theorem C09_bind_const_double_never_float : forall d, bind_const_declared true d <> Some DT_FLOAT.
+Proof. exact bind_const_double_never_float. Qed.
+Print Assumptions C09_bind_const_double_never_float.
+
+(* initializers created through IRBuilder.add_initializer_from_scalar / _array *)
+Theorem C09_builder_single_no_double : forall d r, builder_initializer_payload false d = Some r -> r <> NP_float64.
+Proof. exact builder_single_no_double. Qed.
+Print Assumptions C09_builder_single_no_double.
+Theorem C09_builder_single_complex128_kept : builder_initializer_payload false NP_complex128 = Some NP_complex128.
+Proof. exact builder_single_complex128_kept. Qed.
+Print Assumptions C09_builder_single_complex128_kept.
+
+(* closed-over constants of the traced jaxpr: DOUBLE in single mode only if JAX itself typed the constant float64 *)
+Theorem C09_closed_const_single : forall c t r, closed_const_payload c t NP_float32 false = Some r ->
+  (r = NP_float64 <-> c = NP_float64 /\ t = Some NP_float64).
+Proof. exact closed_const_single. Qed.
+Print Assumptions C09_closed_const_single.
+Theorem C09_closed_const_double : forall c t r, closed_const_payload c t NP_float64 true = Some r ->
+  np_is_floating r = true -> r = NP_float64.
+Proof. exact closed_const_double. Qed.
+Print Assumptions C09_closed_const_double.
+
+(* post-processing with promote_to_double leaves no float32 payload on what it visits, and it visits initializers,
+   Constant nodes, node outputs, nested graph attributes and functions (structure read from the AST) *)
+Theorem C09_postprocess_no_float32 : forall d, postprocess_payload true d <> NP_float32.
+Proof. exact postprocess_no_float32. Qed.
+Print Assumptions C09_postprocess_no_float32.
+Theorem C09_postprocess_traversal : postprocess_visits_initializers && postprocess_visits_constant_nodes &&
+  postprocess_visits_node_outputs && postprocess_recurses_graph_attrs && postprocess_visits_functions &&
+  function_scope_inherits_flag = true.
+Proof. exact postprocess_traversal. Qed.
+Print Assumptions C09_postprocess_traversal.
+
+(* the library answers used by the translated code agree with the hand-written reference classification *)
+Theorem C09_library_tables_agree : forall d,
+  np_from_numpy d = Some (ref_onnx d) /\
+  np_is_integer d = match np_class d with CInt => true | _ => false end /\
+  np_is_complexfloating d = match np_class d with CComplex => true | _ => false end /\
+  np_is_floating d = match np_class d with CFloat => negb (npdtype_eqb d NP_bfloat16) | _ => false end /\
+  dtype_class (ref_onnx d) = np_class d /\ int_info (ref_onnx d) = np_int_info d.
+Proof. exact lib_agrees_with_reference. Qed.
+Print Assumptions C09_library_tables_agree.
+
+(* ---------------------------------------------------------------- (P) the process-wide JAX 64-bit setting *)
+(* cfg = jax_enable_x64; a body maps the state it starts in to (state it leaves, did it raise).  For EVERY behaviour
+   of conversion and post-processing (any change of the flag, normal or exceptional exit at any point) the flag after
+   to_onnx equals the flag before *)
+Theorem C09_x64_restored : forall flag convert post prev, fst (to_onnx_x64 flag convert post prev) = prev.
+Proof. exact x64_restored. Qed.
+Print Assumptions C09_x64_restored.
+Theorem C09_x64_convert_sees_flag : forall flag convert post prev,
+  to_onnx_x64 flag convert post prev = (prev, snd (let '(c, r) := convert flag in if r then (c, true) else post c)).
+Proof. exact x64_convert_sees_flag. Qed.
+Print Assumptions C09_x64_convert_sees_flag.
+Theorem C09_x64_restored_nested : forall f1 f2 pre c2 p2 rest post prev,
+  fst (to_onnx_x64 f1 (body_seq pre (body_seq (to_onnx_x64 f2 c2 p2) rest)) post prev) = prev /\
+  forall s, fst (to_onnx_x64 f2 c2 p2 s) = s.
+Proof. exact x64_restored_nested. Qed.
+Print Assumptions C09_x64_restored_nested.
+Theorem C09_temporary_x64_spec : forall enabled body cfg, temporary_x64 enabled body cfg = (cfg, snd (body enabled)).
+Proof. exact temporary_x64_spec. Qed.
+Print Assumptions C09_temporary_x64_spec.
+Theorem C09_force_jax_x64_spec : forall target body cfg,
+  force_jax_x64 target body cfg = ((if Bool.eqb cfg target then fst (body target) else cfg), snd (body target)).
+Proof. exact force_jax_x64_spec. Qed.
+Print Assumptions C09_force_jax_x64_spec.
+(* the inner manager alone is NOT robust against a body that leaves the flag changed (it is only used under the outer one) *)
+Theorem C09_force_alone_refuted : exists t body s, fst (force_jax_x64 t body s) <> s.
+Proof. exact force_alone_not_robust. Qed.
+Print Assumptions C09_force_alone_refuted.
+Theorem C09_force_partial : forall t body s, (forall s', fst (body s') = s') -> fst (force_jax_x64 t body s) = s.
+Proof. exact force_restores_if_body_does. Qed.
+Print Assumptions C09_force_partial.
+
+(* ---------------------------------------------------------------- (P) promotion float32 -> float64 is exact *)
+Theorem C09_promotion_exact : forall v, in_dom DT_FLOAT v ->
+  cast DT_FLOAT DT_DOUBLE v = Some v /\ in_dom DT_DOUBLE v /\ cast DT_DOUBLE DT_FLOAT v = Some v.
+Proof. exact promotion_exact. Qed.
+Print Assumptions C09_promotion_exact.
+Theorem C09_f32_values_are_f64_values : forall x, fin_fmt (24, -149, 127) x -> fin_fmt (53, -1074, 1023) x.
+Proof. exact f32_values_are_f64_values. Qed.
+Print Assumptions C09_f32_values_are_f64_values.
+(* ... and the converse fails, which is why a hidden float32 round trip is observable *)
+Theorem C09_demotion_not_exact : ~ (forall x, fin_fmt (53, -1074, 1023) x -> fin_fmt (24, -149, 127) x).
+Proof. exact demotion_not_exact. Qed.
+Print Assumptions C09_demotion_not_exact.
